@@ -107,8 +107,8 @@ TRIVIA = [
     ("; page\x0c break, \x0b, \x85 and \u2028 inside a comment\n", "\t"),
     ("\t; separators \x1c\x1d\x1e inside a comment\n;\x0c\n", " "),       # (a lone CR is not used: files are read with universal newlines)
 ]
-SLOTS = {"first": 0, "middle": 3, "last": 6}                                  # quick: first / middle / last statement
-ALL_SLOTS = {"first": 0, "slot1": 1, "slot2": 2, "middle": 3, "slot4": 4, "slot5": 5, "last": 6}   # thorough: every position
+SLOTS = {"first": 0, "middle": 3, "last": 7}                                  # quick: first / middle / last statement
+ALL_SLOTS = {"first": 0, "slot1": 1, "slot2": 2, "middle": 3, "slot4": 4, "slot5": 5, "slot6": 6, "last": 7}   # thorough: every position
 LOCATIONS = ("main", "second", "include")
 
 
